@@ -366,6 +366,8 @@ def run_check(prop, tier, jobs, limit=None, only_case=None):
         "wall_s": round(wall, 2),
         "violations": nfresh_exec,
     }
+    if os.environ.get("VK_C08_WORKER"):
+        return exit_code  # a hash-seed worker of C08: its parent writes the evidence
     os.makedirs(EVIDENCE_DIR, exist_ok=True)
     path = os.path.join(EVIDENCE_DIR, prop + ".json")
     with open(path, "w") as f:
